@@ -19,11 +19,12 @@ From Ont Require Import Lib.Bytes Model.StateDB Proofs.StateDB.
 (** Full statement. [s0] is any state reachable from NewStateDB; Snapshot() returns [id]; then any
     history [ops] during which [id] stays valid (no successful revert/discard at or below it; nested
     snapshots, reverts and discards above it are allowed); then RevertToSnapshot(id). The call does
-    not panic, every getter answers as at the snapshot, and the stack is the one before Snapshot(). *)
+    not panic, every getter answers as at the snapshot, and the stack is the one before Snapshot().
+    ([id < max_int64]: the id is below 2^63-1, where Go's [idx+1] in the guard would wrap.) *)
 Theorem c08_revert_restores :
   forall (H : bytes -> bytes) (backend : memdb) (s0 s1 s3 : statedb) (id : Z) (ops : list op) (r : ret),
     reachable H backend s0 ->
-    step H backend s0 OSnapshot = (s1, RInt id) ->
+    step H backend s0 OSnapshot = (s1, RInt id) -> (id < max_int64)%Z ->
     stays_valid H backend (Z.to_nat id) s1 ops = true ->
     step H backend (run H backend s1 ops) (ORevert id) = (s3, r) ->
     r = RUnit /\
@@ -37,7 +38,7 @@ Print Assumptions c08_revert_restores.
 Theorem c08_revert_restores_nested :
   forall (H : bytes -> bytes) (backend : memdb) (s0 s1 s3 : statedb) (id : Z) (ops : list op) (r : ret),
     reachable H backend s0 ->
-    step H backend s0 OSnapshot = (s1, RInt id) ->
+    step H backend s0 OSnapshot = (s1, RInt id) -> (id < max_int64)%Z ->
     forallb (above (Z.to_nat id)) ops = true ->
     step H backend (run H backend s1 ops) (ORevert id) = (s3, r) ->
     r = RUnit /\
@@ -57,7 +58,7 @@ Print Assumptions c08_discard_is_silent.
     same id is invalid afterwards (RevertToSnapshot panics and changes nothing). *)
 Theorem c08_revert_consumes_id :
   forall (H : bytes -> bytes) (backend : memdb) (s s' : statedb) (id : nat),
-    reachable H backend s -> (id < length (sd_snaps s))%nat ->
+    reachable H backend s -> (id < length (sd_snaps s))%nat -> (Z.of_nat id < max_int64)%Z ->
     step H backend s (ORevert (Z.of_nat id)) = (s', RUnit) ->
     length (sd_snaps s') = id /\ step H backend s' (ORevert (Z.of_nat id)) = (s', RPanic).
 Proof. exact revert_consumes_id_full. Qed.
@@ -73,19 +74,21 @@ Proof. exact logs_slice_in_range_full. Qed.
 Print Assumptions c08_logs_slice_in_range.
 
 (** An operation that panics (explicit panic or Go run-time fault) leaves the whole state as it
-    was; run-time faults only arise from negative indices. *)
+    was; run-time faults only arise from indices outside [0, len(snapshots)). *)
 Theorem c08_panic_keeps_state :
   forall (H : bytes -> bytes) (backend : memdb) (s : statedb) (o : op) (s' : statedb) (r : ret),
     step H backend s o = (s', r) -> r = RPanic \/ r = RFault -> s' = s.
 Proof. exact panic_keeps_state. Qed.
 Print Assumptions c08_panic_keeps_state.
 
-Theorem c08_fault_only_negative_index :
+Theorem c08_fault_only_out_of_range :
   forall (H : bytes -> bytes) (backend : memdb) (s s' : statedb) (o : op),
-    reachable H backend s -> step H backend s o = (s', RFault) ->
-    s' = s /\ exists idx, (idx < 0)%Z /\ (o = ORevert idx \/ o = ODiscard idx).
-Proof. exact fault_only_negative_full. Qed.
-Print Assumptions c08_fault_only_negative_index.
+    reachable H backend s -> (Z.of_nat (length (sd_snaps s)) < max_int64)%Z ->
+    step H backend s o = (s', RFault) ->
+    s' = s /\ exists idx, ((idx < 0)%Z \/ (Z.of_nat (length (sd_snaps s)) <= idx)%Z) /\
+                         (o = ORevert idx \/ o = ODiscard idx).
+Proof. exact fault_only_out_of_range_full. Qed.
+Print Assumptions c08_fault_only_out_of_range.
 
 (** Non-vacuity: a concrete nested history. Outer snapshot 0, writes, inner snapshot 1, more writes
     (slot, nonce, code, balance, log, refund, self-destruct), revert to 1, a discard above, then
